@@ -149,7 +149,8 @@ def execute(sc):
             d = _orig_log(e, **kw)
             if e in ('AcqCall', 'AcqRet', 'Exit', 'RelRet'):
                 try:
-                    d['st'] = {'o%d' % o: [bool(objs[o].is_locked), int(objs[o]._lock_counter), _tl_owner(objs[o]) or 'none']
+                    # (attributes are read directly: the is_locked property is an aiuti frame, i.e. a yield point)
+                    d['st'] = {'o%d' % o: [objs[o]._lock_file_fd is not None, int(objs[o]._lock_counter), _tl_owner(objs[o]) or 'none']
                                for o in sorted(objs)}
                 except Exception:
                     pass
